@@ -29,6 +29,56 @@ from ..core.types import Capability
 # Safety limits
 MAX_EXPRESSION_LENGTH = 10000  # Characters
 MAX_AST_DEPTH = 50  # Nesting levels
+MAX_RESULT_BITS = 100_000  # Largest integer a single operation may produce
+MAX_SEQUENCE_LENGTH = 10_000  # Longest str/list/tuple a single operation may produce
+MAX_FACTORIAL_ARGUMENT = 5_000
+MAX_ROUND_DIGITS = 10_000
+
+
+def _bounded_pow(base: Any, exponent: Any) -> Any:
+    """operator.pow that refuses integer powers with an enormous result."""
+    if isinstance(base, int) and isinstance(exponent, int) and exponent > 1 and abs(base) > 1:
+        if base.bit_length() * exponent > MAX_RESULT_BITS:
+            raise ValueError("Result of ** is too large")
+    return operator.pow(base, exponent)
+
+
+def _bounded_mul(left: Any, right: Any) -> Any:
+    """operator.mul that refuses huge integers and huge repeated sequences."""
+    for seq, count in ((left, right), (right, left)):
+        if isinstance(seq, (str, bytes, list, tuple)) and isinstance(count, int):
+            if count > 0 and len(seq) * count > MAX_SEQUENCE_LENGTH:
+                raise ValueError("Result of * is too long")
+    if isinstance(left, int) and isinstance(right, int):
+        if left.bit_length() + right.bit_length() > MAX_RESULT_BITS:
+            raise ValueError("Result of * is too large")
+    return operator.mul(left, right)
+
+
+def _bounded_add(left: Any, right: Any) -> Any:
+    """operator.add that refuses huge concatenations."""
+    if isinstance(left, (str, bytes, list, tuple)) and isinstance(right, (str, bytes, list, tuple)):
+        if len(left) + len(right) > MAX_SEQUENCE_LENGTH:
+            raise ValueError("Result of + is too long")
+    return operator.add(left, right)
+
+
+def _bounded_factorial(n: Any) -> int:
+    if isinstance(n, int) and n > MAX_FACTORIAL_ARGUMENT:
+        raise ValueError(f"factorial() argument too large (max {MAX_FACTORIAL_ARGUMENT})")
+    return math.factorial(n)
+
+
+def _bounded_round(number: Any, ndigits: Any = None) -> Any:
+    if isinstance(ndigits, int) and abs(ndigits) > MAX_ROUND_DIGITS:
+        raise ValueError(f"round() ndigits too large (max {MAX_ROUND_DIGITS})")
+    return round(number, ndigits)
+
+
+def _bounded_sum(iterable: Any, start: Any = 0) -> Any:
+    if isinstance(start, (list, tuple)):
+        raise ValueError("sum() of sequences is not supported")
+    return sum(iterable, start)
 
 class MetabolicPathway(Enum):
     """
@@ -142,13 +192,13 @@ class Mitochondria:
 
     # Safe operators for expression evaluation
     SAFE_OPERATORS = {
-        ast.Add: operator.add,
+        ast.Add: _bounded_add,
         ast.Sub: operator.sub,
-        ast.Mult: operator.mul,
+        ast.Mult: _bounded_mul,
         ast.Div: operator.truediv,
         ast.FloorDiv: operator.floordiv,
         ast.Mod: operator.mod,
-        ast.Pow: operator.pow,
+        ast.Pow: _bounded_pow,
         ast.USub: operator.neg,
         ast.UAdd: operator.pos,
     }
@@ -173,10 +223,10 @@ class Mitochondria:
     SAFE_FUNCTIONS: dict[str, Any] = {
         # Basic
         'abs': abs,
-        'round': round,
+        'round': _bounded_round,
         'min': min,
         'max': max,
-        'sum': sum,
+        'sum': _bounded_sum,
         'len': len,
         'int': int,
         'float': float,
@@ -202,7 +252,7 @@ class Mitochondria:
         'ceil': math.ceil,
         'floor': math.floor,
         'trunc': math.trunc,
-        'factorial': math.factorial,
+        'factorial': _bounded_factorial,
         'gcd': math.gcd,
         'degrees': math.degrees,
         'radians': math.radians,
@@ -309,6 +359,7 @@ class Mitochondria:
         """
         self._operations_count += 1
         start_time = time.time()
+        self._deadline = start_time + self.timeout
 
         # Safety: Reject overly long expressions
         if len(expression) > MAX_EXPRESSION_LENGTH:
@@ -333,7 +384,8 @@ class Mitochondria:
             pathway = self._detect_pathway(expression)
 
         if not self.silent:
-            print(f"⚡ [Mitochondria] Metabolizing: {expression[:50]}...")
+            shown = expression[:50].encode("utf-8", "backslashreplace").decode("utf-8")
+            print(f"⚡ [Mitochondria] Metabolizing: {shown}...")
 
         try:
             if pathway == MetabolicPathway.GLYCOLYSIS:
@@ -397,7 +449,10 @@ class Mitochondria:
         """
         result = self.metabolize(expression, MetabolicPathway.GLYCOLYSIS)
         if result.success and result.atp:
-            return str(result.atp.value)
+            try:
+                return str(result.atp.value)
+            except ValueError as e:  # e.g. an integer beyond the str() digit limit
+                return f"Metabolic Failure: {e}"
         return f"Metabolic Failure: {result.error}"
 
     def _detect_pathway(self, expression: str) -> MetabolicPathway:
@@ -534,6 +589,8 @@ class Mitochondria:
 
     def _compute_node(self, node: ast.AST) -> Any:
         """Recursively compute AST nodes safely."""
+        if time.time() > getattr(self, "_deadline", float("inf")):
+            raise TimeoutError(f"Computation exceeded {self.timeout}s")
 
         # Constants (numbers, strings, etc.)
         if isinstance(node, ast.Constant):
